@@ -261,9 +261,11 @@ def obligations(tier):
     # "one temporal batch", "one spatial batch": each factor is a window of batch-size distinct rows of its store (the
     # C09 contract of the three consumers, reported under C14)
     from contracts import c09
-    for which in ("CubicMeshPDENonStatio.temporal_batch", "CubicMeshPDEStatio.inside_batch[dim=2]", "CubicMeshPDEStatio.border_batch"):
+    for which, rar in (("CubicMeshPDENonStatio.temporal_batch", False), ("CubicMeshPDEStatio.inside_batch[dim=2]", False),
+                       ("CubicMeshPDEStatio.border_batch", False), ("CubicMeshPDENonStatio.temporal_batch", True),
+                       ("CubicMeshPDEStatio.inside_batch[dim=1]", True)):        # also for refining generators
         try:
-            o = c09.consumer_ob(which, False, "batch_is_window_of_store")
+            o = c09.consumer_ob(which, rar, "batch_is_window_of_store")
         except Exception:
             continue
         o.name = o.name.replace("C09/", "C14/factor/")
